@@ -340,7 +340,7 @@ PROPS["C12"] = {
 PROPS["C08"] = {
     "title": "Curve fitting returns a connected chain within the error bound",
     "gen_modules": ["Basis", "Fit", "Walk", "Normal", "FitKernel", "Total"],
-    "props_modules": ["C08", "C08Error", "C08Cubic", "C08Term", "C08Kernel"],
+    "props_modules": ["C08", "C08Error", "C08Cubic", "C08Term", "C08Kernel", "C08Loop"],
     "corr_n": (3000, 60000),
     "search_n": (300, 6000),
     "technique": "Lean 4 theorems about the WHOLE of fit.rs translated on every run (fit_curve's block loop, max_points_to_fit, fit_curve_cubic's body, fit_line, chords_for_points, generate_bezier, reparameterize, "
@@ -364,6 +364,9 @@ PROPS["C08"] = {
                   "(max_error_pick_index), so if the first and last sample have error 0 (fit_point_error_at_hit; their parameters 0 and 1 are kept by newton_fixed_at_ends_*) a candidate that is not within "
                   "the tolerance >= 0 is split at 1 <= i, i + 1 < n. body_eq / bodyState_inv: the generated body is line | bodyFinish(bodyState), the state being (parameters, the curve generated from them, "
                   "that curve's measured error and index). "
+                  "fit_curve_loop (Props/C08Loop; generated; its block loop was still the one fit_curve had before repair F3 - a gap between blocks from 200 points on: repaired in /repo, f35a364): the same blocks as fit_curve "
+                  "(fit_curve_loop_blocks), None iff fewer than two points, a connected chain from the first to the last point whenever the per-block fitter returns one (fit_curve_loop_chain) and, with the generated "
+                  "fitter, for every input without three coincident consecutive points (generated_fit_curve_loop_chain); bit-exact op fitloop. "
                   "THE KERNEL IS GENERATED TOO (Props/C08Kernel, Gen/FitKernel): generated_fit_curve_spec - THE STATEMENT OF THE PROPERTY FOR THE PUBLIC fit_curve in exact arithmetic: for every list of at least two 2-D points "
                   "in which no three consecutive points coincide (isolated repeated points allowed) and every max_error, fit_curve returns Some connected chain from the first to the last point (blocks of at most 200 points sharing their boundary point) and every "
                   "input point is within max_error of one of its curves at a parameter in [0,1]; generated_fit_within_error - for every such list, every contiguous slice, tangents and "
